@@ -1,4 +1,5 @@
 import SelenModel.Lemmas.Lower
+import SelenModel.Lemmas.LowerFloat
 /-
 C10 — Fluent expressions and combinators mean what their arithmetic reading means.
 
@@ -24,6 +25,26 @@ counterexamples below.  What is proved, for models of any size, about `Model/Low
   `C10_not_counterexample`, `C10_nested_ne_counterexample`, and `C10_aux_vars_partial`
   (auxiliary variables of `+`/`-` trees are functionally determined, under the range hypothesis
   shown necessary by `C10_aux_clipped_counterexample`).
+
+FLOAT OPERANDS (second half of the file, `C10_float_*`; model `Model/LowerFloat.lean`, written once
+against `Num`: the driver runs it at `Float` — bit-exact with the code, suite `lower --float` — the
+theorems below are about the same definitions at exact rationals `Rat`):
+
+* `C10_float_build_sound`, `C10_float_coefficient_arms`, `C10_float_extract_sound`: constant folding
+  through `Val`'s mixed arithmetic and `try_extract_linear_form` with `LinearCoefficient::{Int,Float}`
+  (every arm of add / subtract / negate, mixed kinds) preserve the value of the tree.
+* `C10_float_lowering_decision`: the row is lowered to an INTEGER propagator iff every coefficient
+  kind and the constant are `Int` (`C10_float_all_ints_condition`: the code's `all_ints`), which is
+  iff no float literal is left in the two trees — the variable TYPES are never consulted.
+* this is wrong for float VARIABLES: `C10_float_mixed_strict_counterexample`
+  (`mixed-strict-cmp-int-lowered`), `C10_float_varvar_counterexample` (`float-varvar-cmp-ignored`),
+  `C10_float_row_intlin_counterexample` (`float-row-lowered-to-intlin`), `C10_float_ne_counterexample`.
+* `C10_float_row_partial`: what IS true — the lowered row means the tree read with the lowering's
+  strictness step (`1` for the integer row, `10⁻⁶` for the float row); exact when the float
+  propagator was chosen and the operator is not strict, and when the integer propagator was chosen
+  and every variable of the row takes integer values.
+* `C10_linear_fragment_float`: the linear-fragment theorem for models with float variables and
+  literals of both kinds.
 
 "Meaning" of a lowered propagator is `PK.holds` (the documented meaning of the integer core,
 `Model/IntCore.lean`); that the propagators enforce exactly `PK.holds` is C05/C01's subject — the
@@ -508,6 +529,330 @@ example : (Expr.sub (.add (.var 0) (.var 1)) (.val 3)).AS = true ∧
     (Expr.sub (.add (.var 0) (.var 1)) (.val 3)).InR (fun _ => 1) ∧
     (Expr.sub (.var 1) (.add (.var 0) (.var 0))).InR (fun _ => 1) := by
   refine ⟨by decide, by decide, by decide, by decide, ?_, ?_⟩ <;> simp [Expr.InR, Expr.ev]
+
+/-! ## float operands -/
+
+open FLModel
+
+/-! ### (a) constant folding and linear extraction with float coefficients -/
+
+/-- **the builder's constant folding preserves the value** with literals of either kind: `Val`'s
+mixed `+ - *`, the float quotient `lit / lit` (also between two integer literals), `* int(1)`,
+`/ int(1)`; exact rationals. -/
+theorem C10_float_build_sound (e e' : FExpr Rat) (h : e.build = some e') (a : Nat → Rat) :
+    e'.evalN a = e.evalN a :=
+  FExpr.build_evalN e e' h a
+
+/-- **every arm of `add_coefficients`, `subtract_coefficients`, `negate_coefficient`** (and of
+`Val + Val`, `Val - Val`, `Val * Val`): the result denotes the exact sum / difference / negation /
+product, and it is an `Int` coefficient exactly when both operands are. -/
+theorem C10_float_coefficient_arms (x y : FVal Rat) :
+    (x.add y).toF = x.toF + y.toF ∧ (x.sub y).toF = x.toF - y.toF ∧ x.neg.toF = - x.toF ∧
+    (x.mul y).toF = x.toF * y.toF ∧
+    (x.add y).isI = (x.isI && y.isI) ∧ (x.sub y).isI = (x.isI && y.isI) ∧ x.neg.isI = x.isI :=
+  ⟨FVal.toF_add x y, FVal.toF_sub x y, FVal.toF_neg x, FVal.toF_mul x y,
+   FVal.isI_add x y, FVal.isI_sub x y, FVal.isI_neg x⟩
+
+/-- **`try_extract_linear_form` with float coefficients is sound at exact rationals**: the
+extracted `(coefficients, variables, constant)` — kinds `Int` / `Float` freely mixed, repeated
+variables merged — denotes the value of the tree under every assignment of rationals. -/
+theorem C10_float_extract_sound (e : FExpr Rat) (cs : List (FVal Rat)) (xs : List Nat) (k : FVal Rat)
+    (h : e.extractLinear = some (cs, xs, k)) :
+    cs.length = xs.length ∧ ∀ a : Nat → Rat, e.evalN a = some (dotV cs xs a + k.toF) :=
+  ⟨(FExpr.extract_kinds e cs xs k h).1, FExpr.extractLinear_sound e cs xs k h⟩
+
+/-- the hypotheses are satisfiable: `2.5·x + (y − 0.5) − x·3` (mixed kinds, `x` repeated) -/
+example : (FExpr.sub (.add (.mul (.val (.f (5/2 : Rat))) (.var 0)) (.sub (.var 1) (.val (.f (1/2)))))
+    (.mul (.var 0) (.val (.i 3)))).extractLinear.isSome = true := by decide +kernel
+
+/-! ### (b) integer or float propagator? -/
+
+/-- **the exact condition the code uses** (`all_ints` of `try_convert_to_linear_ast`), any `Num`:
+with `(lc, lx, lk)` / `(rc, rx, rk)` the linear forms of the two sides, the row is `LinearInt` iff
+every `lc`, every `rc` and the constant `-(lk - rk)` are `LinearCoefficient::Int`; coefficients of
+the other kind are then converted (`Int(i) → i as f64`, resp. `Float → 0`, never reached). -/
+theorem C10_float_all_ints_condition {α : Type} [Num α] (l r : FExpr α) (op : CmpOp)
+    (lc : List (FVal α)) (lx : List Nat) (lk : FVal α) (rc : List (FVal α)) (rx : List Nat) (rk : FVal α)
+    (hl : l.extractLinear = some (lc, lx, lk)) (hr : r.extractLinear = some (rc, rx, rk)) :
+    FLModel.linearise l op r = some
+      (if lc.all FVal.isI && rc.all FVal.isI && ((lk.sub rk).neg).isI
+       then .lin ((FExpr.mergeTerms true lc lx rc rx).1.map FVal.toI) (FExpr.mergeTerms true lc lx rc rx).2 op
+          ((lk.sub rk).neg).toI
+       else .flin ((FExpr.mergeTerms true lc lx rc rx).1.map FVal.toF) (FExpr.mergeTerms true lc lx rc rx).2 op
+          ((lk.sub rk).neg).toF) := by
+  simp only [FLModel.linearise, hl, hr]
+  split <;> rfl
+
+/-- **decision theorem**: a comparison with linear sides is lowered to an INTEGER linear propagator
+iff no float literal is left in its two (built) trees, and to a FLOAT linear propagator otherwise.
+`linearise` takes no model argument: the types of the variables cannot influence the choice. -/
+theorem C10_float_lowering_decision {α : Type} [Num α] (l r : FExpr α) (op : CmpOp) (p : FPending α)
+    (h : FLModel.linearise l op r = some p) :
+    ((∃ cs xs k, p = .lin cs xs op k) ↔ (l.noFloatLit = true ∧ r.noFloatLit = true)) ∧
+    ((∃ cs xs k, p = .flin cs xs op k) ↔ ¬ (l.noFloatLit = true ∧ r.noFloatLit = true)) :=
+  FLModel.linearise_decision l r op p h
+
+/-- interval / integer bounds of a variable in a context -/
+def bnd (c : FCtx Rat) (i : Nat) : Rat × Rat :=
+  match c.st i with
+  | .flt iv => (iv.min, iv.max)
+  | .int d => ((ilmin d : Int), (ilmax d : Int))
+
+/-- **counterexample `mixed-strict-cmp-int-lowered`**: `x = float(0,10)`, `y = int(0,5)`, `x.lt(y)`.
+No float literal ⇒ INTEGER row `x − y ≤ −1` (unit strictness step).  At `x = 1/2`, `y = 1` the
+tree is true and the point lies in the declared domains, but the documented meaning of the lowered
+propagator is false: the solutions with `0 < y − x < 1` are lost. -/
+theorem C10_float_mixed_strict_counterexample :
+    let doms : List (FDom Rat) := [.flt 0 10, .int (rangeDom 0 5)]
+    let c : FCon Rat := .bin (.var 0) .lt (.var 1)
+    let m := (FLModel.postCon { doms := doms } c).lower
+    let a : Nat → Rat := fun i => if i = 0 then 1/2 else 1
+    m.props = [.linLe [1, -1] [0, 1] (-1)] ∧ m.doms.length = 2 ∧
+    c.evalN a = some true ∧ FDom.memQ (.flt 0 10) (a 0) ∧ FDom.memQ (.int (rangeDom 0 5)) (a 1) ∧
+    FLP.holdsQ a (.linLe [1, -1] [0, 1] (-1)) = false := by
+  refine ⟨rfl, rfl, by decide +kernel, ?_, ⟨1, by decide, rfl⟩, by decide +kernel⟩
+  show (0 : Rat) ≤ 1/2 ∧ (1/2 : Rat) ≤ 10
+  decide +kernel
+
+/-- **counterexample `float-varvar-cmp-ignored`**: `x = float(5,10)`, `y = float(0,10)`, `x.le(y)`.
+The row is the INTEGER `IntLinLe [1,-1] [x,y] 0`, whose `prune` returns as soon as it meets a float
+variable: on the declared domains nothing is pruned (`y ≥ 5` is not derived), and the fully
+assigned store `x = 7`, `y = 1` — where the tree is FALSE — is accepted unchanged (no failure is
+how the search recognises a solution). -/
+theorem C10_float_varvar_counterexample :
+    let doms : List (FDom Rat) := [.flt 5 10, .flt 0 10]
+    let c : FCon Rat := .bin (.var 0) .le (.var 1)
+    let m := (FLModel.postCon { doms := doms } c).lower
+    let a : Nat → Rat := fun i => if i = 0 then 7 else 1
+    let fixed : FLModel Rat := { doms := [.flt 7 7, .flt 1 1] }
+    m.props = [.linLe [1, -1] [0, 1] 0] ∧
+    c.evalN a = some false ∧ FLP.holdsQ a (.linLe [1, -1] [0, 1] 0) = false ∧
+    (FLModel.prunePass m.props { st := m.store }).map (fun r => (r.1, bnd r.2 0, bnd r.2 1)) =
+      some (none, (5, 10), (0, 10)) ∧
+    (FLModel.prunePass m.props { st := fixed.store }).map (fun r => (r.1, bnd r.2 0, bnd r.2 1)) =
+      some (none, (7, 7), (1, 1)) := by
+  refine ⟨rfl, by decide +kernel, by decide +kernel, by decide +kernel, by decide +kernel⟩
+
+/-- **counterexample `float-row-lowered-to-intlin`** (integer literals on float variables).
+(i) `x = float(5,10)`, `y = float(0,10)`, `y.ge(x.add(int(3)))`: the INTEGER row
+`IntLinLe [-1,1] [y,x] -3` accepts the assigned store `x = 5`, `y = 0` where the tree is false.
+(ii) `x = float(-3,0)`, `x.mul(int(5)).le(int(-7))`: the INTEGER row `IntLinLe [5] [x] -7` tightens
+the float variable with integer division (`div_euclid(-7, 5) = -2`): `x ≤ −2`, which removes
+`x = −3/2` although `5·(−3/2) = −15/2 ≤ −7` — the tree is true there. -/
+theorem C10_float_row_intlin_counterexample :
+    (let doms : List (FDom Rat) := [.flt 5 10, .flt 0 10]
+     let c : FCon Rat := .bin (.var 1) .ge (.add (.var 0) (.val (.i 3)))
+     let m := (FLModel.postCon { doms := doms } c).lower
+     let a : Nat → Rat := fun i => if i = 0 then 5 else 0
+     m.props = [.linLe [-1, 1] [1, 0] (-3)] ∧ c.evalN a = some false ∧
+     (FLModel.prunePass m.props { st := m.store }).map (fun r => (r.1, bnd r.2 0, bnd r.2 1)) =
+       some (none, (5, 10), (0, 10))) ∧
+    (let doms : List (FDom Rat) := [.flt (-3) 0]
+     let c : FCon Rat := .bin (.mul (.var 0) (.val (.i 5))) .le (.val (.i (-7)))
+     let m := (FLModel.postCon { doms := doms } c).lower
+     let a : Nat → Rat := fun _ => -3/2
+     m.props = [.linLe [5] [0] (-7)] ∧ c.evalN a = some true ∧ FDom.memQ (.flt (-3) 0) (a 0) ∧
+     (FLModel.prunePass m.props { st := m.store }).map (fun r => (r.1, bnd r.2 0)) = some (none, (-3, -2)) ∧
+     ¬ (a 0 ≤ -2)) := by
+  refine ⟨⟨rfl, by decide +kernel, by decide +kernel⟩, ⟨rfl, by decide +kernel, ?_, by decide +kernel, by decide +kernel⟩⟩
+  show (-3 : Rat) ≤ -3/2 ∧ (-3/2 : Rat) ≤ 0
+  decide +kernel
+
+/-- **counterexample, `!=`** (`float-ne-ignored`): `x.ne(y)` on two float variables is the INTEGER
+row `IntLinNe [1,-1] [x,y] 0`; it accepts the assigned store `x = y = 3`. -/
+theorem C10_float_ne_counterexample :
+    let doms : List (FDom Rat) := [.flt 0 10, .flt 0 10]
+    let c : FCon Rat := .bin (.var 0) .ne (.var 1)
+    let m := (FLModel.postCon { doms := doms } c).lower
+    let fixed : FLModel Rat := { doms := [.flt 3 3, .flt 3 3] }
+    m.props = [.linNe [1, -1] [0, 1] 0] ∧ c.evalN (fun _ => 3) = some false ∧
+    (FLModel.prunePass m.props { st := fixed.store }).map (fun r => r.1) = some none := by
+  refine ⟨rfl, by decide +kernel, by decide +kernel⟩
+
+/-- … while a row that does contain a float literal is lowered to the FLOAT propagator, which
+does reject the same store: `x.mul(float(1.0)).le(y)` at `x = 7`, `y = 1` -/
+example :
+    let doms : List (FDom Rat) := [.flt 5 10, .flt 0 10]
+    let c : FCon Rat := .bin (.mul (.var 0) (.val (.f 1))) .le (.var 1)
+    let m := (FLModel.postCon { doms := doms } c).lower
+    let fixed : FLModel Rat := { doms := [.flt 7 7, .flt 1 1] }
+    m.props = [.flinLe [1, -1] [0, 1] 0] ∧
+    (FLModel.prunePass m.props { st := fixed.store }).map (fun r => r.1) = some (some 0) := by
+  refine ⟨rfl, by decide +kernel⟩
+
+/-- **partial theorem (what is true of one lowered row).**  `l op r` a comparison whose sides are
+linear and which is not the immediate `Var == Val` pattern, lowered into any model `m`:
+exactly one propagator `lp` is appended and, for every assignment `a` of rationals,
+
+* `lp` means the tree READ WITH THE STRICTNESS STEP of the chosen lowering
+  (`FCon.stepEval`: `x < y` is `x + ε ≤ y`, `x > y` is `y + ε ≤ x`, the other operators unchanged;
+  `ε = 1` for the integer propagator, `ε = 10⁻⁶` — `precision_to_step_size(6)` — for the float one);
+* hence `lp` holding always implies that the tree is true;
+* (float propagator chosen, i.e. some float literal occurs) for `== != <= >=` the meaning is
+  exactly the tree's;
+* (integer propagator chosen) if every variable of the row takes an INTEGER value under `a` — in
+  particular if they are all integer variables — the meaning is exactly the tree's, for all six
+  operators.
+
+The counterexamples above show that the last hypothesis cannot be dropped. -/
+theorem C10_float_row_partial (l r : FExpr Rat) (op : CmpOp)
+    (hs : (FCon.bin l op r).simple = true) (m : FLModel Rat) :
+    let c := FCon.bin l op r
+    FLModel.lowerStep m c.rowP = m.post c.toFLP ∧
+    ∀ a : Nat → Rat,
+      c.stepEval a = some (c.toFLP.holdsQ a) ∧
+      (c.toFLP.holdsQ a = true → c.evalN a = some true) ∧
+      ((∃ cs xs k, c.rowP = .flin cs xs op k) → op ≠ .lt ∧ op ≠ .gt →
+        c.evalN a = some (c.toFLP.holdsQ a)) ∧
+      (∀ cs xs k, c.rowP = .lin cs xs op k → (∀ x ∈ xs, ∃ z : Int, a x = (z : Rat)) →
+        c.evalN a = some (c.toFLP.holdsQ a)) := by
+  refine ⟨lowerStep_row m _ hs, fun a => ?_⟩
+  obtain ⟨l', op', r', hc, _, hlin, hstep, hv⟩ := simple_rowQ (FCon.bin l op r) hs
+  obtain ⟨rfl, rfl, rfl⟩ := FCon.bin.inj hc
+  refine ⟨hstep a, ?_, ?_, ?_⟩
+  · intro hq
+    exact stepEval_imp _ hs a (by rw [hstep a, hq])
+  · intro _ hop
+    rw [← hstep a]
+    exact (stepEval_nonstrict l r op hop a).symm
+  · intro cs xs k hrow hint
+    obtain ⟨vl, vr, evl, evr, vI, _⟩ := linearise_values l r op _ hlin a
+    obtain ⟨z, hz⟩ := dotQ_integral cs xs a hint
+    have e := vI cs xs op k hrow
+    show (FCon.bin l op r).evalN a = some ((FCon.bin l op r).toFLP.holdsQ a)
+    simp only [FCon.toFLP]
+    rw [show (FCon.bin l op r).rowP = .lin cs xs op k from hrow]
+    simp only [FPending.toFLP, linFLP_sem, hz, holdsStep_one_int, FCon.evalN, evl, evr, bind,
+      Option.bind, pure, Option.some.injEq]
+    rw [← hz]
+    exact (CmpOp.holdsN_congr op _ _ _ _ e).symm
+
+/-- the hypotheses of `C10_float_row_partial` are satisfiable, for both lowerings -/
+example : (FCon.bin (.add (.mul (.val (.f (5/2 : Rat))) (.var 0)) (.var 1)) .lt (.sub (.var 0) (.val (.i 2)))).simple = true ∧
+    (FCon.bin (.add (.mul (.val (.i 2)) (.var 0)) (.var 1)) .gt (.sub (.var 0) (.val (.i 2))) : FCon Rat).simple = true := by
+  decide +kernel
+
+/-- integer VARIABLES take integer values: the integrality hypothesis of `C10_float_row_partial`
+holds for every assignment inside the domains when all variables of the row are integer variables -/
+theorem C10_float_int_vars_integral (doms : List (FDom Rat)) (xs : List Nat) (a : Nat → Rat)
+    (hx : ∀ x ∈ xs, ∃ d, doms[x]? = some (.int d)) (ha : InDoms doms a) :
+    ∀ x ∈ xs, ∃ z : Int, a x = (z : Rat) := by
+  intro x hxm
+  obtain ⟨d, hd⟩ := hx x hxm
+  obtain ⟨z, _, e⟩ := ha x _ hd
+  exact ⟨z, e⟩
+
+/-- the comparison propagator of `post_var_val_constraint` / `post_val_var_constraint` / the
+general arm (`x < y` is posted as `Next(x) <= y`, `x > y` as `Next(y) <= x`) -/
+def cmpFLP : CmpOp → Nat → Nat → FLP Rat
+  | .eq, l, r => .eqVV l r
+  | .ne, l, r => .neVV l r
+  | .lt, l, r => .ltVV l r
+  | .le, l, r => .leVV l r
+  | .gt, l, r => .ltVV r l
+  | .ge, l, r => .leVV r l
+
+/-- **`Var op Val` with a literal of either kind** (`post_var_val_constraint`, reached for a nested
+comparison; `op` other than the immediately applied `==`): one SINGLETON variable of the literal's
+kind is created (`int(k,k)` resp. `float(c,c)`) and one view comparison is posted; for every
+assignment that gives the new variable its only value, the documented meaning of that propagator
+is the tree's meaning — also for a float literal on an integer variable and vice versa.
+(`Next(x) <= y` is read as `x < y`; what `Next` does on a float interval — one step `10⁻⁶`,
+clamped to the interval — is C13's subject.) -/
+theorem C10_float_var_val (m : FLModel Rat) (v : Nat) (op : CmpOp) (k : FVal Rat) (hop : op ≠ .eq) :
+    m.materialize (.bin (.var v) op (.val k)) =
+      { m with doms := m.doms ++ [FLModel.single k], props := m.props ++ [cmpFLP op v m.doms.length] } ∧
+    ∀ a : Nat → Rat, FDom.memQ (FLModel.single k) (a m.doms.length) →
+      (FLP.holdsQ a (cmpFLP op v m.doms.length) = true ↔
+        (FCon.bin (.var v) op (.val k)).evalN a = some true) := by
+  constructor
+  · cases op <;> first | (exfalso; exact hop rfl) | rfl
+  · intro a hm
+    have hk : a m.doms.length = k.toF := by
+      cases k with
+      | i c => obtain ⟨z, hz, e⟩ := hm; simp only [List.mem_singleton] at hz; rw [e, hz]; rfl
+      | f x => exact Rat.le_antisymm hm.2 hm.1
+    cases op <;> simp only [cmpFLP, FLP.holdsQ, FCon.evalN, FExpr.evalN, CmpOp.holdsN, RatNum.feq_eq,
+      RatNum.lt_eq, RatNum.le_eq, hk, bind, Option.bind, pure, Option.some.injEq, decide_eq_true_eq,
+      Bool.not_eq_true', decide_eq_false_iff_not]
+
+/-- **the integer model is the restriction of the general one (rows)**: for trees without float
+literal — whatever the variable types — `try_extract_linear_form` and `try_convert_to_linear_ast`
+of the float-aware model produce exactly the linear form / the `LinearInt` row of the integer model
+of `Model/Lower.lean`, for every `Num` (in particular for the `Float` instance the driver runs).
+(That the two models agree on WHOLE integer cases is checked by the driver on every such case of
+the `lower` suite: a `MODEL-MISMATCH` line would be a correspondence diff.) -/
+theorem C10_float_extends_integer_rows {α : Type} [Num α] (l r : Expr) (op : CmpOp) :
+    (l.toF : FExpr α).extractLinear = l.extractLinear.map embForm ∧
+    FLModel.linearise (α := α) l.toF op r.toF = (LModel.linearise l op r).map Pending.toF :=
+  ⟨FExpr.extractLinear_toF l, FLModel.linearise_toF l r op⟩
+
+/-! ### (c) the linear fragment with float operands -/
+
+/-- **C10 on the linear fragment, float operands included.**  `cs` a list of simple constraints
+(top-level comparisons with linear sides — literals and coefficients of either kind — other than
+the immediate `Var == Val` pattern) posted to a fresh model with declared domains `doms` (integer
+and float variables) and lowered.  Then no variable is added, exactly one propagator per
+constraint is produced (`IntLin*` or `FloatLin*` according to `C10_float_lowering_decision`),
+nothing stays pending, and for every assignment `a` of rationals:
+
+* (soundness of the lowering) if `a` lies in the lowered domains and satisfies the documented
+  meaning of every lowered propagator, then it lies in the declared domains and every tree
+  evaluates to `true`;
+* (exact characterisation) `a` lies in the lowered domains and satisfies every lowered propagator
+  iff it lies in the declared domains and every tree holds READ WITH ITS STRICTNESS STEP
+  (`FCon.stepEval`, see `C10_float_row_partial`).
+
+So merging of repeated variables across kinds, moving everything to one side, the `≥ > <` encodings
+and the immediate bound intersection of `Var == Var` (integer variables only) never ADD solutions;
+they LOSE the points where a strict comparison holds by less than its step — one unit for rows
+without float literal (the recorded findings when such a row contains a float variable),
+`10⁻⁶` for float rows (the documented strictness step). -/
+theorem C10_linear_fragment_float (doms : List (FDom Rat)) (cs : List (FCon Rat))
+    (hs : ∀ c ∈ cs, c.simple = true) :
+    let m := (cs.foldl FLModel.postCon { doms := doms }).lower
+    m.doms.length = doms.length ∧ m.props = cs.map FCon.toFLP ∧ m.pending = [] ∧
+    ∀ a : Nat → Rat,
+      ((InDoms m.doms a ∧ ∀ lp ∈ m.props, lp.holdsQ a = true) →
+        (InDoms doms a ∧ ∀ c ∈ cs, c.evalN a = some true)) ∧
+      ((InDoms doms a ∧ ∀ c ∈ cs, c.stepEval a = some true) ↔
+        (InDoms m.doms a ∧ ∀ lp ∈ m.props, lp.holdsQ a = true)) := by
+  intro m
+  obtain ⟨l1, l2, l3⟩ := lower_simpleQ doms cs hs
+  obtain ⟨q1, _, _, q4, q5⟩ := foldl_postCon_simpleQ cs hs { doms := doms }
+  have hlen : m.doms.length = doms.length := by show (FLModel.lower _).doms.length = _; rw [l1, q1]
+  have hstep : ∀ c ∈ cs, ∀ a, c.stepEval a = some (c.toFLP.holdsQ a) := by
+    intro c hc a
+    obtain ⟨_, _, _, _, _, _, h, _⟩ := simple_rowQ c (hs c hc)
+    exact h a
+  have hiff : ∀ a : Nat → Rat, (InDoms doms a ∧ ∀ c ∈ cs, c.stepEval a = some true) ↔
+      (InDoms m.doms a ∧ ∀ lp ∈ m.props, lp.holdsQ a = true) := by
+    intro a
+    show _ ↔ (InDoms (FLModel.lower _).doms a ∧ ∀ lp ∈ (FLModel.lower _).props, _)
+    rw [l1, l2]
+    constructor
+    · rintro ⟨hd, hc⟩
+      refine ⟨q5 a hd (fun c hcm => stepEval_imp c (hs c hcm) a (hc c hcm)), ?_⟩
+      intro lp hlp
+      obtain ⟨c, hcm, rfl⟩ := List.mem_map.1 hlp
+      have := hstep c hcm a
+      rw [hc c hcm] at this
+      exact (Option.some.inj this).symm
+    · rintro ⟨hd, hp⟩
+      refine ⟨q4 a hd, ?_⟩
+      intro c hcm
+      rw [hstep c hcm a, hp _ (List.mem_map.2 ⟨c, hcm, rfl⟩)]
+  refine ⟨hlen, l2, l3, fun a => ⟨?_, hiff a⟩⟩
+  intro h
+  obtain ⟨hd, hc⟩ := (hiff a).2 h
+  exact ⟨hd, fun c hcm => stepEval_imp c (hs c hcm) a (hc c hcm)⟩
+
+/-- the hypotheses of `C10_linear_fragment_float` are satisfiable: `2.5·x + y − x ≤ 7` (float
+row), `x == y`, `3 > y·2 − x` (integer rows), `x != y + 0.5` (float row) -/
+example : ∀ c ∈ [FCon.bin (.sub (.add (.mul (.val (.f (5/2 : Rat))) (.var 0)) (.var 1)) (.var 0)) .le (.val (.i 7)),
+    FCon.bin (.var 0) .eq (.var 1),
+    FCon.bin (.val (.i 3)) .gt (.sub (.mul (.var 1) (.val (.i 2))) (.var 0)),
+    FCon.bin (.var 0) .ne (.add (.var 1) (.val (.f (1/2))))], c.simple = true := by decide +kernel
 
 end C10
 end Selen
